@@ -51,7 +51,7 @@ class DominanceInfo:
                 self._dominance[b] = {b} | (
                     set[Block].intersection(*(self._dominance[p] for p in pred[b]))
                     if pred[b]
-                    else set()
+                    else set(region.blocks)
                 )
                 if old != self._dominance[b]:
                     changed = True
